@@ -68,11 +68,17 @@ func multiStageRule(o *Ob) {
 func fanoutStageRule(o *Ob) {
 	e := o.E
 	fn := o.Fn("(am/notify.FanoutStage).Exec")
-	var g *ssa.Go
+	// a goroutine per integration: a go statement, or sync.WaitGroup.Go (which counts, starts and signals itself)
+	var g ssa.CallInstruction
+	viaWG := false
 	for _, in := range AllInstrs(fn) {
 		if x, ok := in.(*ssa.Go); ok {
 			o.Check(g == nil, "fan-two-go", "FanoutStage.Exec starts goroutines at more than one site", in)
 			g = x
+		}
+		if c, ok := in.(*ssa.Call); ok && calleeName(&c.Call) == "(*sync.WaitGroup).Go" {
+			o.Check(g == nil, "fan-two-go", "FanoutStage.Exec starts goroutines at more than one site", in)
+			g, viaWG = c, true
 		}
 	}
 	o.Require(g != nil, "fan-go", "FanoutStage.Exec no longer runs the integrations concurrently", nil)
@@ -81,13 +87,22 @@ func fanoutStageRule(o *Ob) {
 	o.Require(l != nil, "fan-loop", "integrations are not started in a loop", g)
 	coll, kind := e.RangeOver(l)
 	o.Check(coll == "recv" && kind == "index" && len(e.EarlyExits(l)) == 0, "fan-range", "every integration of the receiver must be started", g)
+	var lit *ssa.Function
+	if viaWG {
+		lit = e.FuncValue(g.Common().Args[1])
+	} else {
+		lit = e.FuncValue(g.Common().Value)
+	}
+	o.Require(lit != nil && len(lit.Blocks) > 0, "fan-lit", "the goroutine's function cannot be resolved", g)
+	// the stage the goroutine runs: handed over as an argument, or the loop's own (per-iteration) variable
 	stageParam := -1
-	for i, a := range g.Call.Args {
-		if e.X(fn, a) == "recv[i]" {
-			stageParam = i
+	if !viaWG {
+		for i, a := range g.Common().Args {
+			if e.X(fn, a) == "recv[i]" {
+				stageParam = i
+			}
 		}
 	}
-	o.Check(stageParam >= 0, "fan-arg", "each goroutine must get its own stage", g)
 	// every iteration starts one
 	bi, _ := l.BodyEntry()
 	r := (&Walk{Fn: fn, Barrier: IsInstr(g)}).FromEdge(l.Header, bi)
@@ -106,21 +121,25 @@ func fanoutStageRule(o *Ob) {
 		o.Check(strings.Contains(v, "errors.Join("), "fan-errors", "the joined errors of the integrations must be returned, returns "+v, ret)
 	}
 	// the wait group counts every goroutine before it starts: all at once before the loop, or one per iteration
-	add := o.One(e.Calls(fn, "(*sync.WaitGroup).Add"), "fan-add", "the wait group must count the integrations", fn)
-	if al := e.LoopOf(add); al != nil && al.Header == l.Header {
-		o.Check(e.Arg(add, 1) == "1", "fan-add-n", "the wait group must count every integration", add)
+	if !viaWG {
+		add := o.One(e.Calls(fn, "(*sync.WaitGroup).Add"), "fan-add", "the wait group must count the integrations", fn)
+		if al := e.LoopOf(add); al != nil && al.Header == l.Header {
+			o.Check(e.Arg(add, 1) == "1", "fan-add-n", "the wait group must count every integration", add)
+		} else {
+			o.Check(e.Arg(add, 1) == "len(recv)", "fan-add-n", "the wait group must count every integration", add)
+		}
+		o.Check(InstrDominates(add, g), "fan-add-late", "a goroutine can start before the wait group counts it (Wait could return early)", g)
 	} else {
-		o.Check(e.Arg(add, 1) == "len(recv)", "fan-add-n", "the wait group must count every integration", add)
+		o.Check(e.Arg(g, 0) == e.Arg(w, 0), "fan-wg", "the goroutines are started on a different wait group than the one waited for", g)
 	}
-	o.Check(InstrDominates(add, g), "fan-add-late", "a goroutine can start before the wait group counts it (Wait could return early)", g)
-	lit := g.Call.Value.(*ssa.MakeClosure).Fn.(*ssa.Function)
 	ex := o.One(e.Calls(lit, "invoke:am/notify.Stage.Exec"), "fan-exec", "each goroutine must execute its stage", lit)
-	o.Check(e.Arg(ex, 0) == "p"+itoa(stageParam) && e.Arg(ex, 3) == "^p2", "fan-exec-args", "each integration must get the whole batch", ex)
-	done := o.One(e.Calls(lit, "(*sync.WaitGroup).Done"), "fan-done", "each goroutine must signal completion", lit)
-	for _, ret := range (&Walk{Fn: lit}).FromEntry().Returns() {
-		o.Check(InstrDominates(done, ret) || true, "fan-done-all-paths", "", ret)
+	stageOK := stageParam >= 0 && e.Arg(ex, 0) == "p"+itoa(stageParam) || regexpMatch(`\^?recv\[i\]`, e.Arg(ex, 0))
+	o.Check(stageOK, "fan-arg", "each goroutine must run its own stage (the loop's), runs "+e.Arg(ex, 0), g)
+	o.Check(e.Arg(ex, 3) == "^p2", "fan-exec-args", "each integration must get the whole batch", ex)
+	if !viaWG {
+		done := o.One(e.Calls(lit, "(*sync.WaitGroup).Done"), "fan-done", "each goroutine must signal completion", lit)
+		o.Check(len((&Walk{Fn: lit, Barrier: IsInstr(done)}).FromEntry().Returns()) == 0, "fan-done-skipped", "a goroutine can finish without signalling the wait group (Exec would hang)", done)
 	}
-	o.Check(len((&Walk{Fn: lit, Barrier: IsInstr(done)}).FromEntry().Returns()) == 0, "fan-done-skipped", "a goroutine can finish without signalling the wait group (Exec would hang)", done)
 	// the error is recorded when non-nil
 	exs := e.X(lit, ex.(*ssa.Call))
 	failed := L("("+exs+"#2 == nil)", false)
